@@ -115,6 +115,33 @@ Section Report.
     destruct (l_task s); apply hoareT_ret; split; assumption.
   Qed.
 
+  (* gradient evaluations of the line search: one per objective evaluation *)
+  Lemma rep_sf_fun_and_grad_g p t : hoareT (sf_fun_and_grad U p t) (fun r tr => callable -> cntG tr <= 1).
+  Proof.
+    unfold sf_fun_and_grad.
+    apply (hoareT_lift sfev _ (fun r tr => cnt vec float vec float (fdmode U) t (snd r) tr)).
+    - intros [[v g] t1] tr (_ & _ & _ & _ & _ & E) Hc. rewrite cntG_lift. destruct (E Hc) as (_ & _ & E3). exact E3.
+    - intros [[v g] t1] tr H. cbn. eapply sf_fun_and_grad_cnt; exact H.
+  Qed.
+  Lemma rep_ls_loop_g n xk d par s : hoareT (ls_loop U K c n xk d par s) (fun s' tr => callable -> cntG tr <= Z.of_nat n).
+  Proof.
+    revert s. induction n as [|k IH]; intros s; cbn [ls_loop].
+    - apply hoareT_ret. intros _. rewrite cntP_nil. lia.
+    - destruct (dcs K par _) as [stp tk].
+      destruct tk; try (apply hoareT_ret; intros _; rewrite cntP_nil; lia).
+      eapply hoareT_bind; [apply rep_sf_fun_and_grad_g|]. intros [[f g] t1] tr1 B1.
+      eapply hoareT_weaken; [apply IH|]. cbn. intros s' tr2 B2 H. rewrite cntP_app. specialize (B1 H). specialize (B2 H). lia.
+  Qed.
+  Lemma rep_line_search_g xk f0 g0 d nit cap t :
+    hoareT (line_search U K c xk f0 g0 d nit cap t) (fun r tr => callable -> cntG tr <= Z.max 0 cap).
+  Proof.
+    unfold line_search. eapply hoareT_bind; [apply rep_ls_loop_g|]. intros s tr1 B1.
+    assert (HB : callable -> cntG (tr1 ++ []) <= Z.max 0 cap).
+    { intros H. rewrite app_nil_r. specialize (B1 H). assert (Z.of_nat (Z.to_nat cap) = Z.max 0 cap) by lia. lia. }
+    destruct (negb _ || _); [apply hoareT_ret; assumption|].
+    destruct (l_task s); apply hoareT_ret; assumption.
+  Qed.
+
   (* ---------------------------------------------------------------- kinds of loop state *)
   Definition nfevS (s : lst) : Z := nfev (s_sf s).
   Definition running (s : lst) : Prop := s_succ s = false /\ (s_msg s = MStart \/ s_msg s = MRestart).
